@@ -167,6 +167,9 @@ theorem tuckerAlsRun_ok {nvecs : Nat → Dense ℝ → Nat → Nat → Mat ℝ} 
   rename_i h1
   split at h
   · cases h
+  rename_i h1b
+  split at h
+  · cases h
   rename_i h2
   split at h
   · cases h
